@@ -64,6 +64,9 @@ type CrashCase struct {
 	// Handled: the interruption is a handled termination signal arriving
 	// before effect CrashAt instead of a kill at it.
 	Handled bool `json:"handled,omitempty"`
+	// JobsCatch: the monitors of the running jobs record the signal
+	// ("_errors: Caught signal terminated") instead of vanishing.
+	JobsCatch bool `json:"jobs_catch,omitempty"`
 	Effect   string `json:"effect,omitempty"`
 }
 
@@ -83,9 +86,9 @@ func evalCrash(c CrashCase, ref *progen.RefResult, p *progen.Program) crashOutco
 		return out
 	}
 	defer os.RemoveAll(dir)
-	o1 := Options{PsDir: dir, CrashAt: c.CrashAt, Torn: c.Torn, MrpPid: 4242, PermSite: nil}
+	o1 := Options{PsDir: dir, CrashAt: c.CrashAt, Torn: c.Torn, MrpPid: 4242, PermSite: nil, JobsCatchSignal: c.JobsCatch}
 	if c.Handled {
-		o1 = Options{PsDir: dir, SignalAt: c.CrashAt, MrpPid: 4242}
+		o1 = Options{PsDir: dir, SignalAt: c.CrashAt, MrpPid: 4242, JobsCatchSignal: c.JobsCatch}
 	}
 	inc1 := Run(p, c.Shape.Schedule, o1)
 	out.inc1 = inc1
@@ -240,7 +243,7 @@ func CrashCheck() {
 		r.Rule = "for each pipeline shape (linear chain, consumer sorting before its producer, split stage, run-time forks, run-time disabled branch, mapped call in a sub-pipeline; thorough: 6 more) " +
 			"the uninterrupted run on the real runtime yields a numbered history of N file-system effects of mrp and of the jobs; for EVERY n in 1..N the run is repeated and the process dies at effect n " +
 			"(the effect and everything after it suppressed; for plain file writes also the torn variants 'empty file' and 'first half'), the stale _lock is removed, and a new incarnation re-attaches " +
-			"through ReattachToPipestance+Reset+RestartLocalJobs+LoadMetadata and runs to the end; for EVERY n also the handled-signal variant: a termination signal arrives before effect n, the process keeps running while a critical section is open (util.EnterCriticalSection), then the registered handlers run (Pipestance.HandleSignal) and the process is dead; the lock must be gone WITHOUT operator help and the restart must succeed the same way; thorough adds a second crash at every effect of the restart for two shapes. " +
+			"through ReattachToPipestance+Reset+RestartLocalJobs+LoadMetadata and runs to the end; for EVERY n also the handled-signal variant: a termination signal arrives before effect n, the process keeps running while a critical section is open (util.EnterCriticalSection), then the registered handlers run (Pipestance.HandleSignal) and the process is dead; the lock must be gone WITHOUT operator help and the restart must succeed the same way; both kinds of interruption are run twice: with the running jobs vanishing without a trace, and with their monitors recording '_errors: Caught signal terminated' as mrjob does on SIGTERM (the restart then finds failed jobs next to queued ones); thorough adds a second crash at every effect of the restart for two shapes. " +
 			"distinct = distinct (shape, crash point, torn variant); non-trivial = the first incarnation actually died at that effect"
 		r.Set("shapes", len(shapes))
 		r.RunWorkers(0)
@@ -286,6 +289,8 @@ func CrashCheck() {
 		for n := 1; n <= base.Effects; n++ {
 			items = append(items, item{si, CrashCase{Shape: sh, CrashAt: n}})
 			items = append(items, item{si, CrashCase{Shape: sh, CrashAt: n, Handled: true}})
+			items = append(items, item{si, CrashCase{Shape: sh, CrashAt: n, JobsCatch: true}})
+			items = append(items, item{si, CrashCase{Shape: sh, CrashAt: n, Handled: true, JobsCatch: true}})
 			if n-1 < len(base.EffectLog) && strings.HasPrefix(base.EffectLog[n-1], "write ") &&
 				!strings.Contains(base.EffectLog[n-1], "journal") {
 				items = append(items, item{si, CrashCase{Shape: sh, CrashAt: n, Torn: 1}})
@@ -311,7 +316,7 @@ func CrashCheck() {
 		it := items[idx]
 		info := infos[it.shape]
 		o := evalCrash(it.c, info.ref, info.p)
-		key := fmt.Sprintf("%s|%d|%d|%v", it.c.Shape.Name(), it.c.CrashAt, it.c.Torn, it.c.Handled)
+		key := fmt.Sprintf("%s|%d|%d|%v|%v", it.c.Shape.Name(), it.c.CrashAt, it.c.Torn, it.c.Handled, it.c.JobsCatch)
 		if o.note == "no-crash" {
 			r.Eval("")
 			r.Outcome("no-crash")
@@ -349,7 +354,7 @@ func CrashCheck() {
 			}
 		}
 		// second-order crashes (thorough, first two shapes, untorn)
-		if r.Thorough() && it.shape < 2 && it.c.Torn == 0 && !it.c.Handled && len(o.viol) == 0 && o.inc2 != nil {
+		if r.Thorough() && it.shape < 2 && it.c.Torn == 0 && !it.c.Handled && !it.c.JobsCatch && len(o.viol) == 0 && o.inc2 != nil {
 			n2 := o.inc2.Effects
 			for m := 1; m <= n2 && m <= 60; m++ {
 				if r.Expired("second-order crash enumeration") {
